@@ -1,9 +1,126 @@
-(* C16 -- the preschedule is a faithful structural summary of the job DAG (work in progress) *)
-From Coq Require Import List NArith ZArith Bool.
-From EKW Require Import Sched.Presched Sched.PreschedCheck.
+(* C16 -- the preschedule is a faithful structural summary of the job DAG.
+   Model: Sched/Presched.v (transcription of cascade/scheduler/graph.py and the two helpers of
+   cascade/low/views.py).  All statements are about `precompute j` for EVERY well formed acyclic job j
+   (wf_job, acyclic: Sched/PreschedMain.v) and speak about the job's edge list only. *)
+From Coq Require Import List NArith ZArith Bool Permutation Sorted.
+From EKW Require Import Sched.Presched Sched.PreschedCheck Sched.PreschedJob Sched.PreschedMain.
 Import ListNotations.
 
+(* every task is in exactly one component *)
+Theorem C16_components_partition : forall j p, wf_job j -> acyclic j -> precompute j = Ok p ->
+  Permutation (concat (map c_nodes (p_comps p))) (tasks_of j).
+Proof. intros j p Hwf Hac Hp. exact (components_partition j Hwf Hac p Hp). Qed.
+
+(* no edge between two components *)
+Theorem C16_components_closed : forall j p c a b, wf_job j -> acyclic j -> precompute j = Ok p ->
+  In c (p_comps p) -> edge_tt j a b -> (In a (c_nodes c) <-> In b (c_nodes c)).
+Proof. intros j p c a b Hwf Hac Hp. exact (components_closed j Hwf Hac p Hp c a b). Qed.
+
+(* a component is weakly connected and not empty: with the two above, the components are exactly
+   the weakly connected components of the job *)
+Theorem C16_components_connected : forall j p c, wf_job j -> acyclic j -> precompute j = Ok p ->
+  In c (p_comps p) -> c_nodes c <> [] /\ forall a b, In a (c_nodes c) -> In b (c_nodes c) -> wconn j a b.
+Proof.
+  intros j p c Hwf Hac Hp Hc. split; [exact (components_nonempty j Hwf Hac p Hp c Hc)|].
+  intros a b. exact (components_connected j Hwf Hac p Hp c a b Hc).
+Qed.
+
+(* heaviest component first *)
+Theorem C16_components_sorted : forall j p, wf_job j -> precompute j = Ok p ->
+  StronglySorted (fun c1 c2 => (List.length (c_nodes c2) <= List.length (c_nodes c1))%nat) (p_comps p).
+Proof. intros j p Hwf Hp. exact (components_sorted j Hwf p Hp). Qed.
+
+(* sources = exactly the tasks of the component without inputs *)
+Theorem C16_sources_exact : forall j p c t, wf_job j -> acyclic j -> precompute j = Ok p -> In c (p_comps p) ->
+  (In t (c_sources c) <-> In t (c_nodes c) /\ forall a, ~ edge_tt j a t).
+Proof. intros j p c t Hwf Hac Hp. exact (sources_exact j Hwf Hac p Hp c t). Qed.
+
+(* consumers, inputs and outputs exactly as the edges state *)
+Theorem C16_edge_maps_exact : forall j p, wf_job j -> precompute j = Ok p ->
+  (forall d t, In t (getd ds_eqb (p_edge_o p) d) <-> exists e, In e (j_edges j) /\ e_ds e = d /\ e_snk e = t) /\
+  (forall t d, In d (getd N.eqb (p_edge_i p) t) <-> exists e, In e (j_edges j) /\ e_snk e = t /\ e_ds e = d) /\
+  map fst (p_task_o p) = tasks_of j /\
+  (forall t outs, In (t, outs) (j_tasks j) -> lookup N.eqb t (p_task_o p) = Some (map (fun o => (t, o)) outs)).
+Proof.
+  intros j p Hwf Hp. split; [exact (edge_o_exact j Hwf p Hp)|]. split; [exact (edge_i_exact j Hwf p Hp)|].
+  exact (task_o_exact j Hwf p Hp).
+Qed.
+
+(* value = component depth - distance to the nearest sink *)
+Theorem C16_value_spec : forall j p c t, wf_job j -> acyclic j -> precompute j = Ok p ->
+  In c (p_comps p) -> In t (c_nodes c) ->
+  exists d, nearest_sink j t d /\ lookup N.eqb t (c_value c) = Some (c_depth c - d)%Z.
+Proof. intros j p c t Hwf Hac Hp. exact (value_spec j Hwf Hac p Hp c t). Qed.
+
+(* every chain of edges inside a component has fewer tasks than the component depth *)
+Theorem C16_depth_bounds_paths : forall j p c a x d, wf_job j -> acyclic j -> precompute j = Ok p ->
+  In c (p_comps p) -> In a (c_nodes c) -> jpath j a x d -> (d <= c_depth c - 1)%Z.
+Proof. intros j p c a x d Hwf Hac Hp. exact (depth_bounds_paths j Hwf Hac p Hp c a x d). Qed.
+
+(* distance (PreschedMain.distance_full): the recorded distance of a and b is the smallest d such that some task
+   is reachable from both within d steps, and the depth if there is no such task *)
+Theorem C16_distance_spec : forall j p c a b, wf_job j -> acyclic j -> precompute j = Ok p ->
+  In c (p_comps p) -> In a (c_nodes c) -> In b (c_nodes c) ->
+  exists row r, lookup N.eqb a (c_dist c) = Some row /\ lookup N.eqb b row = Some r /\ distance_full j (c_depth c) a b r.
+Proof. intros j p c a b Hwf Hac Hp. exact (distance_full_spec j Hwf Hac p Hp c a b). Qed.
+
+(* NOT proved (sampled only, by the correspondence run): that precompute returns at all on every well formed
+   acyclic job, i.e. no KeyError and both loops end.  All theorems above are stated under `precompute j = Ok p`. *)
+Definition C16_total_statement : Prop := forall j, wf_job j -> acyclic j -> exists p, precompute j = Ok p.
+
+(* ------------------------------------------------------------------ non-vacuity *)
+(* two components: a diamond 0 -> {1,2} -> 3 with a multi-edge 1 => 3 and a two-output task, and the isolated task 4 *)
 Definition demo_job : job :=
   mkJ [(0, [0]); (1, [0; 1]); (2, [0]); (3, [0]); (4, [0])]%N
       [mkE 0 0 1 (Some 0) None; mkE 0 0 2 None (Some 0); mkE 1 1 3 None (Some 0); mkE 2 0 3 None (Some 1); mkE 1 0 3 (Some 5) None]%N.
-Eval vm_compute in precompute demo_job.
+
+Example C16_hypotheses_nonvacuous :
+  wf_job demo_job /\ acyclic demo_job /\
+  exists p, precompute demo_job = Ok p /\ map (fun c => List.length (c_nodes c)) (p_comps p) = [4; 1]%nat.
+Proof.
+  split; [|split].
+  - constructor.
+    + vm_compute. repeat constructor; simpl; intuition discriminate.
+    + intros e He. simpl in He. repeat (destruct He as [He|He]; [subst e; vm_compute; intuition|]). destruct He.
+    + intros e He. simpl in He. repeat (destruct He as [He|He]; [subst e; reflexivity|]). destruct He.
+    + vm_compute. repeat constructor; simpl; intuition discriminate.
+  - exists N.to_nat. intros e He. simpl in He. repeat (destruct He as [He|He]; [subst e; vm_compute; repeat constructor|]). destruct He.
+  - eexists. split; vm_compute; reflexivity.
+Qed.
+
+(* the value theorem's premises are met by a task two steps above the sink: value 1 = depth 3 - 2 *)
+Example C16_value_spec_nonvacuous :
+  exists p c, precompute demo_job = Ok p /\ In c (p_comps p) /\ In 0%N (c_nodes c) /\
+              lookup N.eqb 0%N (c_value c) = Some 1%Z /\ c_depth c = 3%Z.
+Proof. eexists. eexists. split; [vm_compute; reflexivity|]. split; [left; reflexivity|]. vm_compute. intuition. Qed.
+
+(* tasks 1 and 2 of the diamond meet in task 3 after one step each; 0 and 3 are at distance 2 *)
+Example C16_distance_spec_nonvacuous :
+  exists p c row, precompute demo_job = Ok p /\ In c (p_comps p) /\ In 1%N (c_nodes c) /\ In 2%N (c_nodes c) /\
+                  lookup N.eqb 1%N (c_dist c) = Some row /\ lookup N.eqb 2%N row = Some 1%Z.
+Proof. eexists. eexists. eexists. split; [vm_compute; reflexivity|]. split; [left; reflexivity|]. vm_compute. intuition. Qed.
+
+(* the hypothesis "no input slot is fed twice" cannot be dropped: two edges into slot 0 of task 2 (param_source keeps
+   the last one, dependants keeps both) make the `while remaining` loop of enrich spin for ever *)
+Definition dup_slot_job : job :=
+  mkJ [(0, [0]); (1, [0]); (2, [0])]%N [mkE 0 0 2 None (Some 0); mkE 1 0 2 None (Some 0)]%N.
+Example C16_unique_slots_needed :
+  NoDup (tasks_of dup_slot_job) /\ acyclic dup_slot_job /\
+  (forall e, In e (j_edges dup_slot_job) -> In (e_src e) (tasks_of dup_slot_job) /\ In (e_snk e) (tasks_of dup_slot_job)) /\
+  precompute dup_slot_job = Err OutOfFuel.
+Proof.
+  split; [vm_compute; repeat constructor; simpl; intuition discriminate|]. split.
+  - exists N.to_nat. intros e He. simpl in He. repeat (destruct He as [He|He]; [subst e; vm_compute; repeat constructor|]). destruct He.
+  - split; [|vm_compute; reflexivity].
+    intros e He. simpl in He. repeat (destruct He as [He|He]; [subst e; vm_compute; intuition|]). destruct He.
+Qed.
+
+Print Assumptions C16_components_partition.
+Print Assumptions C16_components_closed.
+Print Assumptions C16_components_connected.
+Print Assumptions C16_components_sorted.
+Print Assumptions C16_sources_exact.
+Print Assumptions C16_edge_maps_exact.
+Print Assumptions C16_value_spec.
+Print Assumptions C16_depth_bounds_paths.
+Print Assumptions C16_distance_spec.
